@@ -5,7 +5,9 @@ package fullx
 
 import (
 	"context"
+	"encoding/binary"
 	"fmt"
+	"strings"
 	"time"
 
 	"github.com/gopcua/opcua"
@@ -13,6 +15,7 @@ import (
 	"github.com/gopcua/opcua/server"
 	"github.com/gopcua/opcua/ua"
 	"verifrt/driver"
+	"verifrt/vnet"
 	"verifrt/vrt"
 )
 
@@ -99,6 +102,47 @@ func writeInt(ctx context.Context, c *opcua.Client, nid *ua.NodeID, v int32) (ua
 		return 0, fmt.Errorf("%d results", len(resp.Results))
 	}
 	return resp.Results[0], nil
+}
+
+// wireMsg is one single-chunk message of a security-mode-None connection as seen on the wire tap.
+type wireMsg struct {
+	Dir   string // c2s | s2c
+	ReqID uint32
+	At    int64
+	Svc   interface{} // decoded service (request or response), nil if it does not decode
+}
+
+// decodeTap decodes every single-chunk MSG of the tap (mode None). Multi-chunk messages are skipped.
+func decodeTap(tap []vnet.WireEvent) []wireMsg {
+	var out []wireMsg
+	streams := map[int][]byte{}
+	for _, ev := range tap {
+		streams[ev.Conn] = append(streams[ev.Conn], ev.Data...)
+		for {
+			b := streams[ev.Conn]
+			if len(b) < 8 {
+				break
+			}
+			size := int(binary.LittleEndian.Uint32(b[4:8]))
+			if size < 8 || len(b) < size {
+				break
+			}
+			f := b[:size]
+			streams[ev.Conn] = b[size:]
+			if string(f[:4]) != "MSGF" || size < 28 {
+				continue
+			}
+			m := wireMsg{Dir: "s2c", ReqID: binary.LittleEndian.Uint32(f[20:]), At: ev.At}
+			if strings.HasPrefix(ev.From, "client") {
+				m.Dir = "c2s"
+			}
+			if _, svc, err := ua.DecodeService(f[24:]); err == nil {
+				m.Svc = svc
+			}
+			out = append(out, m)
+		}
+	}
+	return out
 }
 
 func fail(x *vrt.Exec) (string, string, string, bool) { return driver.DefaultFail(x) }
